@@ -1,9 +1,15 @@
 package main
 
 import (
+	"bytes"
+	"context"
 	"fmt"
 	"sort"
 	"strings"
+	"testing/fstest"
+	"time"
+
+	"github.com/titpetric/vuego"
 
 	"golang.org/x/net/html"
 	"golang.org/x/net/html/atom"
@@ -13,8 +19,17 @@ import (
 // bound attributes, v-text, v-if / v-else on a variable, v-if comparing with a literal, v-for over a list)
 // rendered by the engine on concrete data; the canonical print of the parsed output must equal the model's.
 
+type miniProp struct {
+	key   int
+	bound bool
+	x     int
+	segs  []miniSeg
+}
 type miniT struct {
-	kind  string // text elem vtext if eq for
+	kind  string // text elem vtext show if chain eq for include slot
+	props []miniProp
+	f     int        // include: component file
+	br    []miniBr   // chain: v-if / v-else-if branches
 	segs  []miniSeg
 	tag   string
 	attrs []miniAttr
@@ -23,6 +38,10 @@ type miniT struct {
 	lit   string
 	el    []*miniT
 	v     int
+}
+type miniBr struct {
+	x    int
+	kids []*miniT
 }
 type miniSeg struct {
 	lit string
@@ -35,7 +54,14 @@ type miniAttr struct {
 	segs  []miniSeg
 }
 
-var miniStrs = []string{"word", "", "false", "<b>", "a&b", `"q"`, "it's", "{{secret}}", "</div>", "x<y>z", "&lt;", "{{x0}}", "true", "0"}
+var miniStrs = []string{"word", "", "false", "<b>", "a&b", `"q"`, "it's", "{{secret}}", "</div>", "x<y>z", "&lt;", "{{x0}}", "true", "0", `["a","b"]`, `{"k":"v"}`, "[1]", `</template><slot></slot>`}
+
+// generator context: which component files may be included from here (indices > minInc), whether a <slot> may appear
+type miniCtx struct {
+	incFrom int  // components with index >= incFrom may be included (c0 may include c1; nothing includes itself)
+	nComp   int
+	slot    bool // inside a component body (or inside content that is itself inside one)
+}
 
 func miniSegs(r *Rng, strVars []int) []miniSeg {
 	var out []miniSeg
@@ -50,10 +76,48 @@ func miniSegs(r *Rng, strVars []int) []miniSeg {
 }
 
 // strVars: variables holding a string or bool (or nothing); listVars: variables holding lists
-func miniGen(r *Rng, depth int, strVars, listVars []int, next *int) []*miniT {
+func miniGen(r *Rng, depth int, strVars, listVars []int, next *int, cx miniCtx) []*miniT {
 	var out []*miniT
 	for i, k := 0, 1+r.Intn(3); i < k; i++ {
-		switch x := r.Intn(10); {
+		switch x := r.Intn(15); {
+		case x == 10 && len(strVars) > 0 && depth > 0:
+			out = append(out, &miniT{kind: "show", tag: Pick(r, []string{"div", "span"}), x: Pick(r, strVars), kids: miniGen(r, depth-1, strVars, listVars, next, cx)})
+		case x == 11 && len(strVars) > 0 && depth > 0:
+			t := &miniT{kind: "chain"}
+			for j, m := 0, 2+r.Intn(2); j < m; j++ {
+				t.br = append(t.br, miniBr{x: Pick(r, strVars), kids: miniGen(r, depth-1, strVars, listVars, next, cx)})
+			}
+			if r.Bool() {
+				t.el = miniGen(r, depth-1, strVars, listVars, next, cx)
+			}
+			out = append(out, t)
+		case (x == 12 || x == 13) && cx.incFrom < cx.nComp && depth > 0:
+			t := &miniT{kind: "include", f: cx.incFrom + r.Intn(cx.nComp-cx.incFrom)}
+			used := map[int]bool{}
+			for j, m := 0, r.Intn(4); j < m; j++ {
+				key := Pick(r, []int{7, 8, 0, 1})
+				if used[key] {
+					continue
+				}
+				used[key] = true
+				if r.Bool() && len(strVars) > 0 {
+					t.props = append(t.props, miniProp{key: key, bound: true, x: Pick(r, append(append([]int{}, strVars...), listVars...))})
+				} else {
+					t.props = append(t.props, miniProp{key: key, segs: miniSegs(r, strVars)})
+				}
+			}
+			if r.Intn(3) != 0 {
+				t.kids = miniGen(r, depth-1, strVars, listVars, next, cx) // supplied slot content (may forward the includer's own slot)
+			}
+			out = append(out, t)
+		case x == 14 && cx.slot:
+			t := &miniT{kind: "slot"}
+			if r.Bool() {
+				t.kids = miniGen(r, depth-1, strVars, listVars, next, cx)
+			}
+			out = append(out, t)
+		case x >= 10:
+			out = append(out, &miniT{kind: "text", segs: miniSegs(r, strVars)})
 		case x < 3 || depth <= 0:
 			out = append(out, &miniT{kind: "text", segs: miniSegs(r, strVars)})
 		case x < 6:
@@ -77,14 +141,14 @@ func miniGen(r *Rng, depth int, strVars, listVars []int, next *int) []*miniT {
 			// the engine writes interpolated attributes first and bound ones after them (C14 / C10 own the
 			// order); the template is written that way so that source order and output order coincide
 			sort.SliceStable(t.attrs, func(i, j int) bool { return !t.attrs[i].bound && t.attrs[j].bound })
-			t.kids = miniGen(r, depth-1, strVars, listVars, next)
+			t.kids = miniGen(r, depth-1, strVars, listVars, next, cx)
 			out = append(out, t)
 		case x < 7 && len(strVars) > 0:
 			out = append(out, &miniT{kind: "vtext", tag: Pick(r, []string{"i", "em"}), x: Pick(r, strVars)})
 		case x < 8 && len(strVars) > 0:
-			out = append(out, &miniT{kind: "if", x: Pick(r, strVars), kids: miniGen(r, depth-1, strVars, listVars, next), el: miniGen(r, depth-1, strVars, listVars, next)})
+			out = append(out, &miniT{kind: "if", x: Pick(r, strVars), kids: miniGen(r, depth-1, strVars, listVars, next, cx), el: miniGen(r, depth-1, strVars, listVars, next, cx)})
 		case x < 9 && len(strVars) > 0:
-			out = append(out, &miniT{kind: "eq", x: Pick(r, strVars), lit: Pick(r, []string{"word", "false", "zz"}), kids: miniGen(r, depth-1, strVars, listVars, next)})
+			out = append(out, &miniT{kind: "eq", x: Pick(r, strVars), lit: Pick(r, []string{"word", "false", "zz"}), kids: miniGen(r, depth-1, strVars, listVars, next, cx)})
 		default:
 			if len(listVars) == 0 {
 				out = append(out, &miniT{kind: "text", segs: miniSegs(r, strVars)})
@@ -92,7 +156,7 @@ func miniGen(r *Rng, depth int, strVars, listVars []int, next *int) []*miniT {
 			}
 			v := *next
 			*next++
-			out = append(out, &miniT{kind: "for", v: v, x: Pick(r, listVars), kids: miniGen(r, depth-1, append(append([]int{}, strVars...), v), listVars, next)})
+			out = append(out, &miniT{kind: "for", v: v, x: Pick(r, listVars), kids: miniGen(r, depth-1, append(append([]int{}, strVars...), v), listVars, next, cx)})
 		}
 	}
 	return out
@@ -144,6 +208,31 @@ func miniSrc(ts []*miniT) string {
 			fmt.Fprintf(&sb, `<template v-if="x%d == '%s'">%s</template>`, t.x, t.lit, miniSrc(t.kids))
 		case "for":
 			fmt.Fprintf(&sb, `<template v-for="x%d in x%d">%s</template>`, t.v, t.x, miniSrc(t.kids))
+		case "show":
+			fmt.Fprintf(&sb, `<%s v-show="x%d">%s</%s>`, t.tag, t.x, miniSrc(t.kids), t.tag)
+		case "chain":
+			for i, b := range t.br {
+				d := "v-else-if"
+				if i == 0 {
+					d = "v-if"
+				}
+				fmt.Fprintf(&sb, `<template %s="x%d">%s</template>`, d, b.x, miniSrc(b.kids))
+			}
+			if t.el != nil {
+				fmt.Fprintf(&sb, `<template v-else>%s</template>`, miniSrc(t.el))
+			}
+		case "include":
+			fmt.Fprintf(&sb, `<template include="c%d.vuego"`, t.f)
+			for _, p := range t.props {
+				if p.bound {
+					fmt.Fprintf(&sb, ` :x%d="x%d"`, p.key, p.x)
+				} else {
+					fmt.Fprintf(&sb, ` x%d="%s"`, p.key, miniSegSrc(p.segs))
+				}
+			}
+			sb.WriteString(">" + miniSrc(t.kids) + "</template>")
+		case "slot":
+			sb.WriteString("<slot>" + miniSrc(t.kids) + "</slot>")
 		}
 	}
 	return sb.String()
@@ -172,6 +261,26 @@ func miniCoq(ts []*miniT) string {
 			xs = append(xs, fmt.Sprintf("TEq %d %s %s", t.x, coqBytes(t.lit), miniCoq(t.kids)))
 		case "for":
 			xs = append(xs, fmt.Sprintf("TFor %d %d %s", t.v, t.x, miniCoq(t.kids)))
+		case "show":
+			xs = append(xs, fmt.Sprintf("TShow %s %d %s", coqBytes(t.tag), t.x, miniCoq(t.kids)))
+		case "chain":
+			var bs []string
+			for _, b := range t.br {
+				bs = append(bs, fmt.Sprintf("(%d, %s)", b.x, miniCoq(b.kids)))
+			}
+			xs = append(xs, fmt.Sprintf("TChain [%s] %s", strings.Join(bs, "; "), miniCoq(t.el)))
+		case "include":
+			var ps []string
+			for _, p := range t.props {
+				if p.bound {
+					ps = append(ps, fmt.Sprintf("PBound %d %d", p.key, p.x))
+				} else {
+					ps = append(ps, fmt.Sprintf("PStatic %d %s", p.key, miniSegCoq(p.segs)))
+				}
+			}
+			xs = append(xs, fmt.Sprintf("TInclude %d [%s] %s", t.f, strings.Join(ps, "; "), miniCoq(t.kids)))
+		case "slot":
+			xs = append(xs, fmt.Sprintf("TSlot %s", miniCoq(t.kids)))
 		}
 	}
 	return "[" + strings.Join(xs, "; ") + "]"
@@ -222,6 +331,27 @@ func miniCanon(out string) string {
 	return show(nodes)
 }
 
+func miniRender(files fstest.MapFS, src string, data map[string]any) (string, error) {
+	var buf bytes.Buffer
+	var err error
+	done := make(chan struct{})
+	go func() {
+		defer close(done)
+		defer func() {
+			if x := recover(); x != nil {
+				err = fmt.Errorf("PANIC %v", x)
+			}
+		}()
+		err = vuego.NewFS(files).Fill(data).RenderString(context.Background(), &buf, src)
+	}()
+	select {
+	case <-done:
+	case <-time.After(4 * time.Second):
+		return "", fmt.Errorf("TIMEOUT")
+	}
+	return buf.String(), err
+}
+
 func c01Mini(r *Run) {
 	rr := r.Rng
 	n := 600
@@ -263,17 +393,32 @@ func c01Mini(r *Run) {
 			envCoq = append(envCoq, fmt.Sprintf("(%d, VList [%s])", v, strings.Join(ic, "; ")))
 		}
 		sort.Strings(envCoq)
-		next := 5
-		tpl := miniGen(rr, 3, strVars, listVars, &next)
+		next := 10
+		// two component files: c1 is a leaf, c0 may include c1; their bodies read the props x7, x8 and whatever
+		// the includer's scope holds (x0..x4), and place <slot>s
+		compVars := append(append([]int{}, strVars...), 7, 8)
+		nComp := 2
+		comps := make([][]*miniT, nComp)
+		files := fstest.MapFS{}
+		var compCoq []string
+		for ci := nComp - 1; ci >= 0; ci-- {
+			// a component file begins with plain text: a leading <template> would be taken for the file's root wrapper
+			comps[ci] = append([]*miniT{{kind: "text", segs: []miniSeg{{lit: "C", x: -1}}}}, miniGen(rr, 2, compVars, listVars, &next, miniCtx{incFrom: ci + 1, nComp: nComp, slot: true})...)
+			files[fmt.Sprintf("c%d.vuego", ci)] = &fstest.MapFile{Data: []byte(miniSrc(comps[ci]))}
+		}
+		for ci := 0; ci < nComp; ci++ {
+			compCoq = append(compCoq, miniCoq(comps[ci]))
+		}
+		tpl := miniGen(rr, 3, strVars, listVars, &next, miniCtx{incFrom: 0, nComp: nComp})
 		src := miniSrc(tpl)
-		out, err := c03Render(src, data)
+		out, err := miniRender(files, src, data)
 		var impl Obs
 		if err != nil {
 			impl = L(A("error"))
 		} else {
 			impl = A(miniCanon(out))
 		}
-		r.Case("mini", fmt.Sprintf("CMini [%s] %s", strings.Join(envCoq, "; "), miniCoq(tpl)), impl,
-			map[string]any{"template": src, "data": fmt.Sprint(data), "output": out, "err": fmt.Sprint(err)}, nil, strings.ContainsAny(fmt.Sprint(data), "<&\"{"))
+		r.Case("mini", fmt.Sprintf("CMini [%s] [%s] %s", strings.Join(compCoq, "; "), strings.Join(envCoq, "; "), miniCoq(tpl)), impl,
+			map[string]any{"template": src, "c0.vuego": miniSrc(comps[0]), "c1.vuego": miniSrc(comps[1]), "data": fmt.Sprint(data), "output": out, "err": fmt.Sprint(err)}, nil, strings.ContainsAny(fmt.Sprint(data), "<&\"{"))
 	}
 }
